@@ -26,6 +26,7 @@ func TestVerif_C10(t *testing.T) {
 	r.Assume("the key set K and threshold T are the ones verifyFinalization uses (the same calls); membership above 50 nodes cannot be created (pledge validation caps it)")
 	rng := r.Rand()
 	roundZeroOfAccepted := false
+	ownChainOfCandidate := false
 	observe := func(h *verifHistory, node *Node, ts uint64, pledging *verifMember, cfg string) {
 		// a running chain knows its own node (ConsensusInfo) whether it is pledging or long accepted
 		m0 := h.Members[0]
@@ -34,6 +35,17 @@ func TestVerif_C10(t *testing.T) {
 		round := uint64(1)
 		if roundZeroOfAccepted {
 			round = 0 // a round-zero certificate presented for a chain that is already running
+		}
+		if ownChainOfCandidate {
+			// the chain of the node whose removal is predictable in this window (its own key is not in the set)
+			if rc := h.refRemoving(ts); rc != nil {
+				for _, m := range h.Members {
+					if m.Id == rc.Id {
+						ch = &Chain{node: node, ChainId: m.Id, State: &ChainState{},
+							ConsensusInfo: &CNode{IdForNetwork: m.Id, Signer: m.Signer, State: common.NodeStateAccepted}}
+					}
+				}
+			}
 		}
 		if pledging != nil {
 			ch = &Chain{node: node, ChainId: pledging.Id, ConsensusInfo: &CNode{IdForNetwork: pledging.Id, Signer: pledging.Signer, State: common.NodeStatePledging}}
@@ -45,7 +57,7 @@ func TestVerif_C10(t *testing.T) {
 		_, base := h.refThreshold(ts, true)
 		r.Eval()
 		win := h.refRemoving(ts) != nil
-		r.Nontrivial(fmt.Sprintf("%d|%d|%v|%v|%v", K, T, pledging != nil, win, roundZeroOfAccepted))
+		r.Nontrivial(fmt.Sprintf("%d|%d|%v|%v|%v|%v", K, T, pledging != nil, win, roundZeroOfAccepted, ownChainOfCandidate))
 		r.Count("observations", 1)
 		if pledging != nil {
 			r.Count("round_zero_observations", 1)
@@ -72,6 +84,9 @@ func TestVerif_C10(t *testing.T) {
 		cls := "later-round"
 		if roundZeroOfAccepted && pledging == nil {
 			cls = "round-zero-of-a-running-chain"
+		}
+		if ownChainOfCandidate {
+			cls = "chain-of-the-removal-candidate"
 		}
 		if pledging != nil {
 			cls = "round-zero-acceptance"
@@ -184,6 +199,11 @@ func TestVerif_C10(t *testing.T) {
 			roundZeroOfAccepted = true
 			observe(h, node, ts, nil, "random-history round-zero-of-a-running-chain")
 			roundZeroOfAccepted = false
+			if h.refRemoving(ts) != nil {
+				ownChainOfCandidate = true
+				observe(h, node, ts, nil, "random-history chain-of-the-removal-candidate")
+				ownChainOfCandidate = false
+			}
 			if pledging != nil {
 				observe(h, node, ts, pledging, "random-history-pledging-chain")
 			}
@@ -222,6 +242,20 @@ func vC10Measure(t *testing.T, r *verifkit.Run, h *verifHistory, ts uint64, rng 
 		if K == 0 || K > 64 {
 			continue
 		}
+		// a certificate counts for the legacy vector only if it cannot also be read against the current one: the two
+		// vectors agree up to the first node that is in one and not in the other, and a mask that only names positions
+		// before it is the very same certificate over the current keys (decided by the current threshold). Every
+		// certificate presented for the legacy vector therefore names at least one position from there on.
+		differFrom := 0
+		if v.name == "legacy-key-set" {
+			cur, _ := chain.ConsensusKeys(1, ts)
+			for differFrom < K && differFrom < len(cur) && cur[differFrom] == ids[differFrom] {
+				differFrom++
+			}
+			if differFrom >= K {
+				continue
+			}
+		}
 		minAccepted := 0
 		for n := K; n >= 1; n-- {
 			s := &common.Snapshot{Version: common.SnapshotVersionCommonEncoding, NodeId: chain.ChainId, RoundNumber: 1, Timestamp: ts,
@@ -229,6 +263,13 @@ func vC10Measure(t *testing.T, r *verifkit.Run, h *verifHistory, ts uint64, rng 
 				Transactions: []crypto.Hash{crypto.Blake3Hash([]byte(fmt.Sprint("c10-measure", ts, n, v.name)))}}
 			s.Hash = s.PayloadHash()
 			pos := rng.Perm(K)[:n]
+			beyond := false
+			for _, p := range pos {
+				beyond = beyond || p >= differFrom
+			}
+			if !beyond {
+				pos[rng.Intn(n)] = differFrom + rng.Intn(K-differFrom)
+			}
 			sort.Ints(pos)
 			sig, err := vC09Cosi(h, s.Hash, ids, pubs, pos)
 			if err != nil {
